@@ -495,6 +495,7 @@ var c06fixedTime = time.Unix(1700000000, 0)
 type c06hooks struct {
 	mu                  sync.Mutex
 	sent                []uint32
+	written             []uint32        // chunk indices the receiver wrote, in order
 	verdict             map[uint32]bool // chunk -> mismatch
 	verifyDone          chan struct{}
 	fileEnd             chan struct{}
@@ -550,6 +551,10 @@ func (h *c06hooks) handler(name string, args ...any) {
 			}
 		}
 		h.once2.Do(func() { close(h.fileEnd) })
+	case "recv.chunk.written":
+		h.mu.Lock()
+		h.written = append(h.written, args[1].(uint32))
+		h.mu.Unlock()
 	case "recv.chunk.marked":
 		h.mu.Lock()
 		c := args[1].(uint32)
@@ -570,6 +575,7 @@ type c06result struct {
 	final    []byte
 	finalOK  bool
 	sent     []uint32
+	written  []uint32
 	resent   int64 // -1 none
 	skipped  int64 // receiver's skipped count, -1 = not reported
 	src      []byte
@@ -888,6 +894,7 @@ func c06runScenario(base string, sc c06scen) c06result {
 	}
 	h.mu.Lock()
 	all := append([]uint32{}, h.sent...)
+	out.written = append([]uint32{}, h.written...)
 	out.resent = -1
 	for c, mism := range h.verdict {
 		if mism {
@@ -1004,9 +1011,9 @@ func (c *c06ctx) scenario(base string, sc c06scen) {
 		if o.resent >= 0 {
 			rs = fmt.Sprintf("(Some %d)", o.resent)
 		}
-		c.cf.Add(fmt.Sprintf("C06.X %d %s %d %d %d %s %s %s %s %d %s %s %s %s %d", id, hx.Str(o.id), sc.Size, sc.CS, alg,
+		c.cf.Add(fmt.Sprintf("C06.X %d %s %d %d %d %s %s %s %s %d %s %s %s %s %d %s", id, hx.Str(o.id), sc.Size, sc.CS, alg,
 			c06opt(o.fileB, o.hasFile), c06opt(o.primB, o.hasPrim), c06opt(o.fallB, o.hasFall), hx.Bytes(o.src), sc.Tail, hx.B(sc.Verify == "none"),
-			c06u32list(o.sent), rs, hx.Bytes(o.final), o.skipped))
+			c06u32list(o.sent), rs, hx.Bytes(o.final), o.skipped, c06u32list(o.written)))
 		c.rep.TracesValidated++
 	}
 	c.rep.Sample(map[string]any{"scenario": sc.String(), "sent": o.sent, "resent": o.resent, "receiver_skipped": o.skipped, "sender_err": fmt.Sprint(o.res.sendErr), "receiver_err": fmt.Sprint(o.res.recvErr)})
